@@ -130,6 +130,12 @@ struct CheckedBackend {
 // error, but the open is already failing.
 impl Drop for CheckedBackend {
     fn drop(&mut self) {
+        #[cfg(all(redb_verif, not(redb_no_std)))]
+        crate::verif_c08::latch_enter(
+            crate::verif_c08::VLatchCall::Drop,
+            &self.io_failed,
+            &self.closed,
+        );
         if !self.closed.load(Ordering::Acquire) {
             let _ = self.file.close();
         }
@@ -158,6 +164,12 @@ impl CheckedBackend {
     }
 
     fn close(&self) -> Result {
+        #[cfg(all(redb_verif, not(redb_no_std)))]
+        crate::verif_c08::latch_enter(
+            crate::verif_c08::VLatchCall::Close,
+            &self.io_failed,
+            &self.closed,
+        );
         self.closed.store(true, Ordering::Release);
         self.io_failed.store(true, Ordering::Release);
         self.file.close()?;
@@ -166,6 +178,12 @@ impl CheckedBackend {
     }
 
     fn len(&self) -> Result<u64> {
+        #[cfg(all(redb_verif, not(redb_no_std)))]
+        crate::verif_c08::latch_enter(
+            crate::verif_c08::VLatchCall::Len,
+            &self.io_failed,
+            &self.closed,
+        );
         self.check_failure()?;
         let result = self.file.len();
         if result.is_err() {
@@ -175,6 +193,12 @@ impl CheckedBackend {
     }
 
     fn read(&self, offset: u64, out: &mut [u8]) -> Result<()> {
+        #[cfg(all(redb_verif, not(redb_no_std)))]
+        crate::verif_c08::latch_enter(
+            crate::verif_c08::VLatchCall::Read,
+            &self.io_failed,
+            &self.closed,
+        );
         self.check_failure()?;
         let result = self.file.read(offset, out);
         if result.is_err() {
@@ -184,6 +208,12 @@ impl CheckedBackend {
     }
 
     fn set_len(&self, len: u64) -> Result<()> {
+        #[cfg(all(redb_verif, not(redb_no_std)))]
+        crate::verif_c08::latch_enter(
+            crate::verif_c08::VLatchCall::SetLen,
+            &self.io_failed,
+            &self.closed,
+        );
         self.check_failure()?;
         let result = self.file.set_len(len);
         if result.is_err() {
@@ -193,6 +223,12 @@ impl CheckedBackend {
     }
 
     fn sync_data(&self) -> Result<()> {
+        #[cfg(all(redb_verif, not(redb_no_std)))]
+        crate::verif_c08::latch_enter(
+            crate::verif_c08::VLatchCall::SyncData,
+            &self.io_failed,
+            &self.closed,
+        );
         self.check_failure()?;
         let result = self.file.sync_data();
         if result.is_err() {
@@ -202,6 +238,12 @@ impl CheckedBackend {
     }
 
     fn write(&self, offset: u64, data: &[u8]) -> Result<()> {
+        #[cfg(all(redb_verif, not(redb_no_std)))]
+        crate::verif_c08::latch_enter(
+            crate::verif_c08::VLatchCall::Write,
+            &self.io_failed,
+            &self.closed,
+        );
         self.check_failure()?;
         let result = self.file.write(offset, data);
         if result.is_err() {
@@ -214,6 +256,12 @@ impl CheckedBackend {
     // optimization depends on, latching would turn every later operation into a PreviousIo error
     // over data that nothing was waiting on.
     fn write_best_effort(&self, offset: u64, data: &[u8]) -> Result<()> {
+        #[cfg(all(redb_verif, not(redb_no_std)))]
+        crate::verif_c08::latch_enter(
+            crate::verif_c08::VLatchCall::WriteBestEffort,
+            &self.io_failed,
+            &self.closed,
+        );
         self.check_failure()?;
         self.file.write(offset, data).map_err(StorageError::from)
     }
